@@ -291,8 +291,27 @@ def run_word(fe, word, final=True):
     return {'fail': None, 'k': len(word), 'checks': checks, 'env': e, 'sets': len(decl_sets), 'vac': vac}
 
 
+_MINI = {}
+
+
+def _subseq(small, big):
+    it = iter(big)
+    return all(any(x == y for y in it) for x in small)
+
+
 def minimise(fe, word, how):
-    """Shortest sub-word (by greedy one-symbol deletion, honest replays) that still fails the same way at its end."""
+    """Shortest sub-word (by greedy one-symbol deletion, honest replays) that still fails the same way at its end.
+    A minimal failing word found earlier (same front end, same failure, same last symbol) that is a subsequence of
+    this word is re-used without further replays."""
+    for m_ in _MINI.get((fe, how, word[-1]), []):
+        if _subseq(m_[:-1], word[:-1]):
+            return list(m_)
+    cur = _minimise(fe, word, how)
+    _MINI.setdefault((fe, how, word[-1]), []).append(list(cur))
+    return cur
+
+
+def _minimise(fe, word, how):
     cur = list(word)
     changed = True
     while changed and len(cur) > 1:
@@ -375,12 +394,10 @@ def _step(e, sym):
 
 
 def run_graph(case):
-    import time
     fe = case['fe']
     alphabet = ['st:' + d for d in case['decl']] + list(case['ops'])
     max_states = case.get('max_states', 100000)
-    budget = case.get('budget_s', 150.0)
-    t0 = time.time()
+    max_trans = case.get('max_transitions', 1000000)
     root = base(fe)
     visited = {state_key(root): ()}
     frontier = [(root, ())]
@@ -426,7 +443,7 @@ def run_graph(case):
                             raise RuntimeError('state key after deepcopy exploration differs from honest replay '
                                                'for %s' % (word,))
                         cross += 1
-            if len(visited) >= max_states or time.time() - t0 > budget:
+            if len(visited) >= max_states or transitions >= max_trans:
                 capped = True
                 break
         if capped:
